@@ -33,7 +33,8 @@ RULE = ('texts are generated from value descriptions (string, code point + escap
         'parsed back by the checker; a case is distinct by its text and non-trivial when the reference defines its '
         'value (in-domain); expected values are computed without the lexer: the string itself, chr(cp), '
         'the independent decoder, integer arithmetic, correctly rounded Fraction')
-ASSUMPTIONS = ['CPython int arithmetic, chr() and Fraction->float rounding are the reference',
+ASSUMPTIONS = ['the per-code-point sweeps over U+0800..U+D7FF compare Constant.value only; every other case is also evaluated',
+               'CPython int arithmetic, chr() and Fraction->float rounding are the reference',
                'unicodedata names are the reference for \\N{NAME}',
                'a value whose verbatim spelling would need an unpaired backslash has no verbatim spelling (domain note of DESIGN C16)',
                'leading-zero numerals, non-latin letters/digits and operator words are not covered by the language reference: out of domain']
@@ -65,8 +66,9 @@ def setup():
     return _state
 
 
-def observe(text):
-    """('const'|'kw', value, evaluated) | ('tree', node type) | ('rejected', class) | ('raised', class)."""
+def observe(text, evaluate=True):
+    """('const'|'kw', value, evaluated) | ('tree', node type) | ('rejected', class) | ('raised', class).
+    With evaluate=False the third item repeats Constant.value (parse-only case)."""
     s = setup()
     try:
         st = s['eng'](text)
@@ -81,6 +83,8 @@ def observe(text):
         kind = 'const'
     else:
         return ('tree', type(e).__name__)
+    if not evaluate:
+        return (kind, e.value, e.value)
     try:
         ev = st.evaluate(context=s['root'].create_child_context())
     except Exception as ex:
@@ -96,12 +100,13 @@ def same(x, y):
     return x == y
 
 
-def judge(res, family, text, expect, case, keyinfo):
+def judge(res, family, text, expect, case, keyinfo, evaluate=True):
     """expect: ('const'|'kw', value) | ('rejected',) | None (out of domain)."""
     core.CURRENT_CASE[0] = case
     res.case((family, text))
-    obs = observe(text)
+    obs = observe(text, evaluate)
     res.evaluations += 1
+    res.extra['evaluated_as_well_as_parsed'] = res.extra.get('evaluated_as_well_as_parsed', 0) + (1 if evaluate else 0)
     res.transitions += 1
     if expect is None:
         res.out_of_domain += 1
@@ -123,12 +128,18 @@ def judge(res, family, text, expect, case, keyinfo):
 # --------------------------------------------------------------------------
 # spell: value -> quote() -> read back
 # --------------------------------------------------------------------------
-def spell(res, value):
+def sweep_evaluates(cp):
+    """Per-code-point sweeps evaluate the literal (besides reading Constant.value) outside the bulk of the BMP."""
+    return cp < 0x800 or cp >= 0xD800
+
+
+def spell(res, value, evaluate=True):
     for q in M.STYLES:
         expect = ('const', value)
         if q == '`' and not M.verbatim_spellable(value):
             expect = None
-        judge(res, 'spell', M.quote(value, q), expect, {'family': 'spell', 'value': value, 'style': q}, 'style=' + q)
+        judge(res, 'spell', M.quote(value, q), expect, {'family': 'spell', 'value': value, 'style': q}, 'style=' + q,
+              evaluate)
 
 
 def job_spell_strings(firsts):
@@ -147,8 +158,8 @@ def job_spell_codepoints(ranges):
     res = Result()
     for lo, hi in ranges:
         for cp in range(lo, hi):
-            spell(res, chr(cp))
-            spell(res, 'a' + chr(cp) + 'b')
+            spell(res, chr(cp), sweep_evaluates(cp))
+            spell(res, 'a' + chr(cp) + 'b', sweep_evaluates(cp))
     res.sample({'family': 'spell', 'ranges': ranges[:2]}, limit=1)
     return res
 
@@ -192,7 +203,8 @@ def escape_cases(res, cp, wide):
             body = pre + esc + post
             value = pre + (esc if q == '`' else c) + post
             judge(res, 'escape', q + body + q, ('const', value),
-                  {'family': 'escape', 'body': body, 'style': q, 'cp': cp}, 'form=\\%s style=%s' % (form, q))
+                  {'family': 'escape', 'body': body, 'style': q, 'cp': cp}, 'form=\\%s style=%s' % (form, q),
+                  sweep_evaluates(cp))
 
 
 def letter_cases(res):
